@@ -20,7 +20,10 @@ SPEC = dict(
     sc=dict(family="flow", n=(220, 1500), mc=dict(max_calls=12, after_end=3), mc_thorough=dict(max_calls=14),
             invariants=END, bugs=[("stopKeepsStack", END, []), ("staleChoiceAfterEnd", END, [])]),
     cs=[dict(family="flowbig", n=(60, 400), paths=(4, 6), calls=45,
-             label="YarnTrace: random walks continued after the end")],
+             label="YarnTrace: random walks continued after the end"),
+        # ends reached next to commands (pending ones, handlers the host registered under `stop`)
+        dict(family="cmds", n=(40, 300), paths=(3, 5), calls=40,
+             label="YarnTrace: dialogues with commands continued after the end")],
     rule="flow-family programs (stop at any nesting depth with statements remaining, option groups as last statement with empty and "
          "non-empty bodies): every path to an end enumerated by TLC, then 3 further Next calls with arbitrary arguments (0, in-range "
          "indices of the last group, negative, huge) replayed; random walks of bigger programs continued 2-4 calls past the end; "
